@@ -437,4 +437,32 @@ func genC06(cw *caseWriter, seed uint64, tier string) {
 		}
 		runC06History(cw, ops)
 	}
+	// rows that grow past the sizes where a container might change its representation (8, 16, 32, 64 keys):
+	// keys enter through every mutator, then existing keys are set, imported and addressed by position again
+	vals := c06values()
+	for _, total := range []int{9, 17, 33, 70} {
+		var ops []c06op
+		for k := 0; k < total; k++ {
+			key := fmt.Sprintf("w%02d", (k*29)%total)
+			switch k % 4 {
+			case 0:
+				ops = append(ops, c06op{kind: "set", key: key, val: vals[1]})
+			case 1:
+				ops = append(ops, c06op{kind: "iak", key: key, val: vals[2]})
+			case 2:
+				ops = append(ops, c06op{kind: "setv", key: key, cell: c06cells()[0]})
+			default:
+				ops = append(ops, c06op{kind: "um", json: `{"` + key + `":` + fmt.Sprint(k) + `,"a":null}`})
+			}
+			if k%5 == 4 {
+				ops = append(ops, c06op{kind: "setat", idx: r.intn(k + 2), val: vals[3]})
+				ops = append(ops, c06op{kind: "iai", idx: r.intn(k + 2), val: vals[5]})
+				ops = append(ops, c06op{kind: "set", key: fmt.Sprintf("w%02d", (r.intn(k+1)*29)%total), val: vals[0]})
+			}
+		}
+		for j := 0; j < 12; j++ {
+			ops = append(ops, c06randomOp(r))
+		}
+		runC06History(cw, ops)
+	}
 }
